@@ -165,6 +165,9 @@ func (s *Share[FE]) UnmarshalCBOR(data []byte) error {
 	if err != nil {
 		return errs.Wrap(err).WithMessage("failed to unmarshal Shamir Share")
 	}
+	if dto == nil {
+		return errs.Wrap(serde.ErrNull).WithMessage("failed to unmarshal Shamir Share")
+	}
 
 	s2, err := NewShare(dto.ID, dto.V, nil)
 	if err != nil {
